@@ -200,7 +200,7 @@ package action
 //@   ensures [C14] [schema-gate] !old(GschemaPassed)[chart] && result2 == nil ==> GschemaPassed[chart] && GschemaSkip[chart] == old(u.SkipSchemaValidation)
 //@   ensures [C01] [next-revision] result2 == nil ==> fresh(result1) && result1.Name == name && aboveAll(name, result1.Version) && result1.Info.Status == "pending-upgrade" && result0 != nil
 //@   ensures [C01] [C09] [pending-blocks] (exists v int :: Dex[mkkey(name, v)] && (forall w int :: Dex[mkkey(name, w)] ==> w <= v) && (Dst[mkkey(name, v)] == "pending-install" || Dst[mkkey(name, v)] == "pending-upgrade" || Dst[mkkey(name, v)] == "pending-rollback")) ==> result2 != nil
-//@   ensures [C13] [current-is-deployed-if-any] result2 == nil && (exists v int :: Dex[mkkey(name, v)] && Dst[mkkey(name, v)] == "deployed") ==> result0.Info.Status == "deployed"
+//@   ensures [C07] [C13] [current-is-deployed-if-any] result2 == nil && (exists v int :: Dex[mkkey(name, v)] && Dst[mkkey(name, v)] == "deployed") ==> result0.Info.Status == "deployed"
 //@   ensures [C13] [values-carried-from-current] result2 == nil ==> valuesCarriedFrom(result1.Config, result0)
 //@   ensures [results] result2 == nil ==> result0 != nil && result1 != nil && result1.Info != nil
 //@   ensures [C03] [distinct-revisions] result2 == nil ==> result0 != result1 && result0.Info != nil && result0.Info != result1.Info && hooksNonNil(result1.Hooks) && mkkey(result0.Name, result0.Version) != mkkey(result1.Name, result1.Version)
